@@ -21,6 +21,12 @@ claimed = {
              note="BLAKE3 is an uninterpreted, assumed collision-free function; that the digest is BLAKE3-256 is outside the claim."),
  "C06": dict(design="5/C06", text="For each of the 25 tables the solver decides all 512 case spellings of the 64 codons against an independently written NCBI oracle (standard code + per-table reassignments); start/stop lists compared with NCBI's; concatenation at codon boundaries, partial-codon and case clauses for all strings up to length 7 (quick) / 10 (thorough).",
              note="The NCBI oracle in the harness was transcribed by hand from the NCBI genetic-code page. Map iteration order of the table generator: insertion order (quick), plus reversed (thorough)."),
+ "C08": dict(design="5/C08", text="Counting: for every coding sequence over all ASCII bytes up to the stated length the solver decides that each of the 64 weights equals the number of in-frame case-insensitive occurrences and the assignment is untouched. History: every operation sequence (request default / re-weight default / add) up to the stated length over two table ids is executed on the real code with struct/slice aliasing modelled exactly, and every held table is compared with a value-semantics model after every step.",
+             note="Known finding C08-F1 (OptimizeTable writes through to the shared default table) is reported as KNOWN-FINDING; histories outside its region (no table id both re-weighted and requested twice) must hold. Concurrency / race detector not covered."),
+ "C07": dict(design="5/C07", text="Round trip (3 bases per residue, translates back) for every protein of 1..2 letters over each table's letters and every value of every rand.Intn draw; unencodable residues (all ASCII bytes) give an error, never a panic; the 10% threshold and zero-weight exclusion decided for symbolic weights; every output of random.ProteinSequence (all rand draws) is optimisable.",
+             note="math/rand.Intn is a stub returning an arbitrary value in range (panics for n<=0); chooser()'s float division/comparison is abstracted to real arithmetic in the threshold clause; the statistical proportionality clause is not covered. Replays of rand-dependent counterexamples are statistical (up to 3000 native tries)."),
+ "C18": dict(design="5/C18", text="Add: 128 symbolic 64-bit weights over full 64-codon tables, every weight is the sum and code/starts/stops are the first table's. Compromise: for enumerated small weights and a symbolic real cut-off in [-1,2] the solver decides error iff cut-off outside [0,1], symmetry, zero-or-mean-of-shares within the +/-1-per-rounding tolerance, zero below / mean above the cut-off, code kept.",
+             note="Shares are computed with real float64 arithmetic on concrete weights; int(10000*cutOff) is abstracted to real arithmetic with truncation."),
 }
 
 na_reason = {}
